@@ -50,3 +50,7 @@ Proof. vm_compute. auto. Qed.
 (* (e) the known finding that stays: backwardStamp reads one stamp past the previous domain *)
 Lemma backward_stamp_eof : stamp w_idx3 110 (-1) false = Err EEOF.
 Proof. vm_compute. reflexivity. Qed.
+(* ... and, when the wanted sample is the first of the first domain, the lower bound of the
+   approximation would need a domain before it *)
+Lemma backward_stamp_first : stamp w_idx3 51 (-6) false = Err EDisc.
+Proof. vm_compute. reflexivity. Qed.
